@@ -29,7 +29,13 @@ DELIMS = [b"\n", b"\r\n", b"\r\n\r\n", b"ab"]
 REGEXES = [rb"\r?\n\r?\n", rb"[0-9]+:", rb"a{2}b"]
 _RX = [re.compile(r) for r in REGEXES]
 
-SENTINEL = 0xEE  # fill byte of read_into buffers; never occurs in generated streams
+SENTINEL = 0xEE  # (legacy name) read_into buffers are pre-filled with sentinel_pattern(); bytes 0xE0-0xEC
+                 # never occur in generated streams
+
+
+def sentinel_pattern(n):
+    """position-dependent fill of a caller buffer, so that a moved or truncated tail is visible too"""
+    return bytearray(0xE0 + (i % 13) for i in range(n))
 
 
 def find_match(spec, rem):
@@ -88,7 +94,7 @@ def issue_read(stream, spec, max_bytes=None):
     if kind == "bytes":
         return stream.read_bytes(spec[1], partial=spec[2]), None
     if kind == "into":
-        buf = bytearray([SENTINEL]) * spec[1]
+        buf = sentinel_pattern(spec[1])
         return stream.read_into(buf, partial=spec[2]), buf
     if kind == "until":
         return stream.read_until(DELIMS[spec[1]], max_bytes=max_bytes), None
@@ -238,7 +244,7 @@ class Read:
         self.calls += 1
 
 
-_RESULT_CLAUSES = {".result_type", ".wrong_data", ".partial_length", ".returned_unsatisfied", ".read_into_result",
+_RESULT_CLAUSES = {".read_into_resized_caller_buffer", ".result_type", ".wrong_data", ".partial_length", ".returned_unsatisfied", ".read_into_result",
                    ".read_into_touched_rest_of_buffer", ".returned_instead_of_closing", ".returned_more_than_max_bytes"}
 
 
@@ -277,6 +283,8 @@ def verdict(ctx, P, rd, rem, ended, end_errors, stream, overflow_ok=False, detai
 
     def closed_error(exc):
         real = exc.real_error
+        if rd.buf is not None and len(rd.buf) != spec[1]:
+            fail(".read_into_resized_caller_buffer", dict(d, buf_len=len(rd.buf), want_len=spec[1], failed_read=True))
         if overflow_ok:
             # read-buffer overflow closes the stream (Tornado closes with error=None and then raises
             # StreamBufferFullError into the event handler); the statement is silent about it
@@ -330,11 +338,16 @@ def verdict(ctx, P, rd, rem, ended, end_errors, stream, overflow_ok=False, detai
     res = fut.result()
     into = spec[0] == "into"
     if into:
+        if len(rd.buf) != spec[1]:
+            # the caller's buffer object must keep its length (a slice assignment of a shorter view into
+            # ``buf[:]`` would shrink a bytearray)
+            fail(".read_into_resized_caller_buffer", dict(d, buf_len=len(rd.buf), want_len=spec[1], got=repr(res)))
+            return ("failed", 0)
         if type(res) is not int or not (0 <= res <= len(rd.buf)):
             fail(".read_into_result", dict(d, got=repr(res)))
             return ("failed", 0)
         got = bytes(rd.buf[:res])
-        tail_ok = all(b == SENTINEL for b in rd.buf[res:])
+        tail_ok = rd.buf[res:] == sentinel_pattern(spec[1])[res:]
     else:
         if type(res) is not bytes:
             fail(".result_type", dict(d, got=repr(res)[:80]))
